@@ -1,7 +1,7 @@
 (* Driver of the executable interpretation of the regenerated grammar:
      vpeg <cases> <out>
    case lines:  parse <start> <cap|none> <hex text>
-   output:      tree <s-expression> <end position>  |  err  |  fuel *)
+   output:      tree <s-expression> @ <end position>  |  err  |  fuel ;  then  state <dir height> [<versions, bottom first>] *)
 open Vutil
 
 let buf = Buffer.create 65536
@@ -11,6 +11,13 @@ let rec show (t : Tree.tree) =
   match t with
   | Tree.Leaf l -> pr "L %d %d %d " (int_of_n l.Tree.l_off) (int_of_n l.Tree.l_len) (int_of_n l.Tree.l_line)
   | Tree.Node (k, cs) -> pr "( %d " (int_of_n k); Stdlib.List.iter show cs; pr ") "
+
+let version_name = function
+  | Keywords.V_Ieee1364_1995 -> "Ieee1364_1995" | Keywords.V_Ieee1364_2001 -> "Ieee1364_2001"
+  | Keywords.V_Ieee1364_2001Noconfig -> "Ieee1364_2001Noconfig" | Keywords.V_Ieee1364_2005 -> "Ieee1364_2005"
+  | Keywords.V_Ieee1800_2005 -> "Ieee1800_2005" | Keywords.V_Ieee1800_2009 -> "Ieee1800_2009"
+  | Keywords.V_Ieee1800_2012 -> "Ieee1800_2012" | Keywords.V_Ieee1800_2017 -> "Ieee1800_2017"
+  | Keywords.V_Directive -> "Directive"
 
 let start_of = function
   | "sv" -> GenGrammar.start_source_text
@@ -29,11 +36,15 @@ let run_case (c : case) =
           let inp = nlist_of_string text in
           let cap = if cap = "none" then None else Some (nat_of_int (int_of_string cap)) in
           let fuel = nat_of_int (4000 + 40 * Stdlib.String.length text) in
-          let (r, _) = Exec.exec GenPrims.span_defs GenPrims.prim_table GenGrammar.grammar cap (start_of st) inp fuel in
+          let (r, fin) = Exec.exec GenPrims.span_defs GenPrims.prim_table GenGrammar.grammar cap (start_of st) inp fuel in
           (match r with
            | Peg.Ok (f, p) -> pr "tree "; Stdlib.List.iter show f; pr "@ %d\n" (int_of_nat p)
            | Peg.Err -> pr "err\n"
-           | Peg.Fuel -> pr "fuel\n")
+           | Peg.Fuel -> pr "fuel\n");
+          (* the thread-local stacks the parse leaves behind: height of IN_DIRECTIVE, CURRENT_VERSION bottom first *)
+          let x = fin.Peg.ps_aux in
+          pr "state %d [%s]\n" (int_of_nat x.Exec.t_dir)
+            (Stdlib.String.concat "," (Stdlib.List.rev_map version_name x.Exec.t_ver))
       | _ -> failwith "vpeg: unknown line")
     c.lines
 
